@@ -99,7 +99,7 @@ def threshold_literal(nf, residual, nu_term):
 
 
 def check_mean_interval(chk, pid, key, where, sm, im, cm, paths, kind, level, centre, se, nu, dom,
-                        desc_prefix, subst=None, t_range=(50000, 200000)):
+                        desc_prefix, subst=None, t_range=(50000, 200000), stat_atoms=None):
     """Obligation: on the domain the summary has exactly the t-path and the z-path, split by a
     constant threshold on nu in t_range, each returning Ok(kind-appropriate interval) with
     bounds centre -/+ c*se for c = inverse_cdf(StudentsT(0,1,nu) | Normal(0,1), q)."""
@@ -164,16 +164,26 @@ def check_mean_interval(chk, pid, key, where, sm, im, cm, paths, kind, level, ce
     chk.ob(key, 'E3+E4 formula', desc_prefix, not bad, '; '.join(bad[:2]), where,
            sample={'obligation': key, 'centre': T.show(centre)[:80], 'se': T.show(se)[:120], 'nu': T.show(nu)[:60], 'q': T.show(q)})
     if not bad:
-        # dynamic range: no intermediate of the code scales with a higher power of the data than the documented form
-        from .degree import max_degree
+        # dynamic range: every intermediate of the code must be dominated, in its growth orders (data scale, sample size),
+        # by an intermediate of the documented form - else it overflows for inputs whose documented result is ordinary
+        from .degree import growth_points, undominated
+        keys = {}
+        for ref_t, nm in (stat_atoms or []):
+            try:
+                keys[nf.key(nf.of_term(ref_t))] = T.sym(nm)
+            except NotReal:
+                pass
+        kmemo = {}
 
-        class _Degs(dict):
-            def get(self, name, default=None):
-                if name.startswith('S2') or name.startswith('v'):
-                    return Fraction(2)
-                if name.startswith('S1') or name.startswith('m'):
-                    return Fraction(1)
-                return Fraction(0)
+        def recognise(u):
+            if not keys:
+                return None
+            if u not in kmemo:
+                try:
+                    kmemo[u] = keys.get(nf.key(nf.of_term(u)))
+                except (NotReal, Unsupported, KeyError, TypeError, ValueError):
+                    kmemo[u] = None
+            return kmemo[u]
         worst = None
         for below, p in seen.items():
             dec = im.decode(unwrap_ok(p.ret))
@@ -181,11 +191,11 @@ def check_mean_interval(chk, pid, key, where, sm, im, cm, paths, kind, level, ce
             for got, ref in ((dec[1], T.op('sub', centre, T.op('mul', c, se))), (dec[2], T.op('add', centre, T.op('mul', c, se)))):
                 if isinstance(got, int):
                     continue
-                dg, dw = max_degree(got, _Degs()), max_degree(ref, _Degs())
-                if dg is None or dw is None or dg > dw:
-                    worst = (dg, dw)
-        chk.ob(key + ':range', 'E9 scaling degree', desc_prefix + ' - no intermediate scales with a higher power of the data than in the documented form',
-               worst is None, '' if worst is None else 'intermediate of scaling degree %s in the data; the documented form stays within %s' % worst, where)
+                extra = undominated(growth_points(got, recognise), growth_points(ref, recognise))
+                if extra:
+                    worst = extra
+        chk.ob(key + ':range', 'E9 growth orders', desc_prefix + ' - every intermediate is dominated in its growth orders (data scale, sample size) by one of the documented form',
+               worst is None, '' if worst is None else 'intermediates of growth (data^a, n^b) with (a, b) in %s are not dominated by any intermediate of the documented form' % [tuple(str(x) for x in w) for w in worst[:3]], where)
     return not bad
 
 
